@@ -9,6 +9,7 @@ CONSTANTS
   EventShapes <- ES_two
   EvNames <- N1
   Listeners <- L4
+  SubmitKinds <- K2
   Loose = FALSE
   Dev <- NoDev
 INVARIANT TypeOK
